@@ -122,11 +122,11 @@ def run(tier, seed, jobs) -> Result:
             "IDLE entry/exit is not required to notice a delivery no session was told about yet (it does not look at the folder); "
             "after 21 virtual seconds of idling it is",
         ],
-        time_budget=80 if tier == "quick" else 1500,
+        time_budget=80 if tier == "quick" else 900,
     )
     per = []
     for sc in s_scenarios(tier):
-        r = sched.explore(sc, 2 if tier == "quick" else 3, jobs, seed, max_exec=20000 if tier == "quick" else 400000)
+        r = sched.explore(sc, 2 if tier == "quick" else 3, jobs, seed, max_exec=20000 if tier == "quick" else 80000)
         res.failures.extend(f for f in r["failures"] if f.rule.startswith("C01."))
         res.coverage["states"] += r["executions"]
         res.coverage["transitions"] += r["steps"]
